@@ -156,9 +156,186 @@ def h_scan(n, cache, pre, query):
     return fn, types
 
 
+# ---------------------------------------------------------------- longer sequences over real rrule carriers: the cache fills in chunks
+LONG_PRE = ("none", "r0", "contains-first", "after-first", "between-head", "idx5", "iter3", "slice-head")
+
+
+def h_long(carrier, cache, pre):
+    """Real rrule / rruleset carriers with n = 0..25 daily occurrences; an earlier early-stopping query leaves the cache
+    partially filled; then rule[i] for every i in -n-2..n+2, count() and a membership query.  All inputs are pinned per
+    path by the solver (n, i); the check runs in the native replay of each path's witness."""
+    import datetime
+    from dateutil import rrule as RR
+    types = dict(n=int, i=int)
+    start = datetime.datetime(1997, 9, 2, 9, 0)
+
+    def fn(ctx, n, i):
+        ctx.assume(S.within(n, 0, 25))
+        ctx.assume(S.within(i, -27, 27))
+        ctx.assume(S.within(i, S.sub(-2, n), S.add(n, 2)))
+        n, i = ctx.concrete(n), ctx.concrete(i)
+        if ctx.symbolic:
+            return None
+        with ctx.untraced():
+            L = [start + datetime.timedelta(days=k) for k in range(n)]
+
+            def build():
+                r = RR.rrule(RR.DAILY, dtstart=start, count=n, cache=cache)
+                if carrier == "rruleset":
+                    rs = RR.rruleset(cache=cache)
+                    rs.rrule(r)
+                    return rs
+                return r
+            r = build()
+            held = None
+            if pre == "r0":
+                try:
+                    r[0]
+                except IndexError:
+                    pass
+            elif pre == "contains-first":
+                start in r
+            elif pre == "after-first":
+                r.after(start)
+            elif pre == "between-head":
+                r.between(start, start + datetime.timedelta(days=3), inc=True)
+            elif pre == "idx5":
+                try:
+                    r[5]
+                except IndexError:
+                    pass
+            elif pre == "iter3":
+                held = iter(r)
+                for _ in range(3):
+                    next(held, None)
+            elif pre == "slice-head":
+                r[0:2]
+            key = "long:%s:%s" % (carrier, pre)
+            try:
+                exp = ("ok", L[i])
+            except IndexError:
+                exp = ("IndexError", None)
+            try:
+                got = ("ok", r[i])
+            except IndexError:
+                got = ("IndexError", None)
+            except Exception as e:
+                ctx.fail("rule[%d] raised %s (n=%d, after %s)" % (i, type(e).__name__, n, pre), key=key + ":index-exc")
+            ctx.check(got == exp, "rule[%d] = %r but list(rule)[%d] = %r (n=%d, cache=%s, after %s)" % (i, got, i, exp, n, cache, pre), key=key + ":index")
+            ctx.check(r.count() == n, "count() != len(list(rule)) (n=%d, after %s)" % (n, pre), key=key + ":count")
+            if L:
+                ctx.check(L[-1] in r and (L[-1] + datetime.timedelta(hours=1)) not in r, "membership differs from the listed sequence", key=key + ":contains")
+            ctx.check(list(r) == L, "list(rule) after the queries differs from the uncached sequence", key=key + ":list")
+            ctx.check(list(build()[max(i, 0)::3]) == L[max(i, 0)::3], "rule[i::3] != list(rule)[i::3]", key=key + ":slice")
+        return None
+    return fn, types
+
+
+# ---------------------------------------------------------------- replace(): differs only in the named parameters
+def _replace_tables():
+    import datetime
+    from dateutil import rrule as RR
+    start = datetime.datetime(1997, 9, 2, 9, 0)       # a Tuesday
+    bases = [
+        ("weekly", dict(freq=RR.WEEKLY)),
+        ("weekly-tu-th", dict(freq=RR.WEEKLY, byweekday=(RR.TU, RR.TH))),
+        ("weekly-i2-su", dict(freq=RR.WEEKLY, interval=2, wkst=RR.SU)),
+        ("monthly", dict(freq=RR.MONTHLY)),
+        ("monthly-15", dict(freq=RR.MONTHLY, bymonthday=(15,))),
+        ("monthly-1fr", dict(freq=RR.MONTHLY, byweekday=(RR.FR(1),))),
+        ("yearly", dict(freq=RR.YEARLY)),
+        ("yearly-mar", dict(freq=RR.YEARLY, bymonth=(3,))),
+        ("daily-9h", dict(freq=RR.DAILY, byhour=(9, 17))),
+        ("daily-count", dict(freq=RR.DAILY, count=5)),
+        ("daily-until", dict(freq=RR.DAILY, until=start + datetime.timedelta(days=40))),
+        ("hourly", dict(freq=RR.HOURLY, interval=5)),
+        ("minutely", dict(freq=RR.MINUTELY, interval=45)),
+        ("weekly-cached", dict(freq=RR.WEEKLY, cache=True)),
+    ]
+    changes = [("dtstart", "shift")] + [("freq", f) for f in range(7)] + [
+        ("interval", 3), ("count", 3), ("until", start + datetime.timedelta(days=400)), ("byweekday", (RR.MO,)), ("byweekday", (RR.WE(2),)),
+        ("bymonthday", (1,)), ("bymonthday", (-1,)), ("bymonth", (6,)), ("wkst", 3), ("byhour", (6,)), ("byminute", (30,)), ("bysecond", (15,)),
+        ("cache", True), ("byyearday", (100,)), ("byweekno", (20,)), ("bysetpos", (1,)),
+    ]
+    return start, bases, changes
+
+
+def h_replace(bi):
+    import datetime
+    import warnings
+    from dateutil import rrule as RR
+    from harness import c13
+    start, bases, changes = _replace_tables()
+    bname, base = bases[bi]
+    types = dict(c=int, k=int, second=int)
+
+    def fn(ctx, c, k, second):
+        ctx.assume(S.within(c, 0, len(changes) - 1))
+        ctx.assume(S.within(k, 1, 6))
+        ctx.assume(S.within(second, -1, len(changes) - 1))
+        ctx.assume(S.or_(S.eq(c, 0), S.eq(k, 1)))            # the day shift only matters for dtstart (change 0)
+        ctx.assume(S.or_(S.eq(second, -1), S.eq(S.mod(S.add(second, 5), 5), S.mod(c, 5))))      # a thinned set of two-parameter replacements
+        c, k, second = ctx.concrete(c), ctx.concrete(k), ctx.concrete(second)
+        if second >= 0:
+            ctx.assume(changes[second][0] != changes[c][0])
+        if ctx.symbolic:
+            return None
+        with ctx.untraced(), warnings.catch_warnings():
+            warnings.simplefilter("ignore")
+            named = {}
+            for ci in ([c] if second < 0 else [c, second]):
+                name, val = changes[ci]
+                if val == "shift":
+                    val = start + datetime.timedelta(days=k, hours=k)
+                named[name] = val
+            kw = dict(base)
+            freq = kw.pop("freq")
+            orig = RR.rrule(freq, dtstart=start, **kw)
+            before = c13.state(orig)
+            key = "replace:%s:%s" % (bname, "+".join(sorted(named)))
+            merged = dict(kw, dtstart=start, freq=freq)
+            merged.update(named)
+            f2 = merged.pop("freq")
+            try:
+                want = RR.rrule(f2, **merged)
+            except Exception as e:
+                want = type(e)
+            try:
+                got = orig.replace(**named)
+            except Exception as e:
+                got = type(e)
+            if isinstance(want, type) or isinstance(got, type):
+                ctx.check(got is want, "replace(%s) raised/returned %r, building the rule afresh gives %r" % (sorted(named), got, want), key=key + ":raises")
+                return None
+            ctx.check(c13.state(orig) == before, "replace() modified the rule it was called on", key=key + ":mutates")
+            ctx.check(c13.state(got) == c13.state(want) and got._cache_complete == want._cache_complete and (got._cache is None) == (want._cache is None),
+                      "replace(%s) differs from the rule built afresh with those parameters changed" % (sorted(named),), key=key + ":state")
+            by = set(merged)
+            if ("byyearday" in by and by & {"bymonth", "bymonthday", "byweekno"}) or ("byweekno" in by and by & {"bymonth", "bymonthday"}):
+                return None      # possibly an empty rule: iterating it spins to year 9999 (minutes for sub-daily rules); state compared above
+            a = list(itertools.islice(got, 6))
+            b = list(itertools.islice(want, 6))
+            ctx.check(a == b, "replace(%s): occurrences %r, expected %r" % (sorted(named), a[:3], b[:3]), key=key + ":occurrences")
+            ctx.check(list(itertools.islice(orig, 3)) == list(itertools.islice(RR.rrule(freq, dtstart=start, **kw), 3)),
+                      "the original rule changed its occurrences after replace()", key=key + ":orig-occurrences")
+        return None
+    return fn, types
+
+
 def cells(tier):
     q = tier == "quick"
     cs = []
+    _s, bases, _c = _replace_tables()
+    for bi in range(len(bases)):
+        cs.append(Cell(M, "h_replace", dict(bi=bi), name="replace[%s]" % bases[bi][0], budget_s=150 if q else 900))
+    for carrier in ("rrule", "rruleset"):
+        for cache in (True, False):
+            for pre in LONG_PRE:
+                if not cache and pre not in ("none", "idx5"):
+                    continue
+                if q and carrier == "rruleset" and pre in ("between-head", "slice-head", "contains-first"):
+                    continue
+                cs.append(Cell(M, "h_long", dict(carrier=carrier, cache=cache, pre=pre), budget_s=200 if q else 900))
     ns = (3,) if q else (0, 1, 3, 4)
     pres = ("none", "list") if q else ("none", "list", "count", "next1", "contains")
     B = 150 if q else 900
@@ -178,9 +355,11 @@ def cells(tier):
 ASSUMPTIONS = [
     "carrier: rruleset with n symbolic integer rdates (1..1000, strictly increasing) -- rrulebase's query code only iterates and compares; "
     "real rrule objects as carriers are covered by C01's harness producing the same iterator protocol",
+    "h_long / h_replace cells: every input is pinned per path by the solver and the check runs in the native replay (real rrule objects, real cache chunks); replace() oracle = the rule built afresh from the original keyword arguments with the named ones changed",
     "slice bounds / index / count are solver integers in -n-2..n+2 that are pinned per path (the slice object must be concrete); query instants stay symbolic",
 ]
-OUTSIDE = ["replace() (rrule-specific; see C13 cells on constructor state)", "step == 0 slices", "sequences longer than 4"]
+OUTSIDE = ["step == 0 slices", "symbolic-instant sequences longer than 4 (real rrule carriers go to 25 daily occurrences with pinned inputs)",
+           "replace() beyond the listed base rules x named parameters (one or two at a time)"]
 
 
 def run(tier, seed, jobs):
